@@ -489,3 +489,71 @@ class MiniEval:
                     work.append((fn.bmap[lab], 0, blk, dict(regs), dict(mem)))
                 prev = blk; blk = fn.bmap[nxt[0]]; idx = 0
         return out
+
+
+# ------------------------------------------------------------------ loops over (array parameter, count parameter) pairs
+
+def _sx(f, v):
+    while v[0] == 'reg':
+        d = f.def_of(v)
+        if d is not None and d.op in ('sext', 'zext', 'trunc', 'bitcast'): v = d.ops[0]
+        else: break
+    return v
+
+def param_array_loops(prog, fn):
+    """[(branch, counter local, init constants, predicate, count parameter, [array parameters])] for every loop of fn whose
+    exit test compares a counter with a count parameter and whose body indexes array parameters with that counter"""
+    import ir
+    res = ir.Resolver(fn); cfg = prog.cfg(fn, cut=False)
+    params = {p[1] + '.addr' for p in fn.params if p[1]}
+    out = []
+    for b in fn.blocks:
+        br = b.ins[-1]
+        if br.op != 'br' or not br.ops or len(br.targets) != 2: continue
+        if not any(y.blk is b for y in cfg.reach(br)): continue           # not a loop test
+        d = fn.def_of(br.ops[0])
+        if d is None or d.op != 'icmp' or d.pred not in ('sle', 'slt', 'ule', 'ult'): continue
+        a = fn.def_of(_sx(fn, d.ops[0])) if d.ops[0][0] == 'reg' else None
+        c = fn.def_of(_sx(fn, d.ops[1])) if d.ops[1][0] == 'reg' else None
+        if a is None or c is None or a.op != 'load' or c.op != 'load': continue
+        la = res.loc(a.ops[0]); lc = res.loc(c.ops[0])
+        if la[0] != 'local' or lc[0] != 'local' or lc[1] not in params or la[1] in params: continue
+        if any(x.op == 'store' and res.loc(x.ops[1]) == lc for x in fn.ins if x.blk is not fn.entry): continue   # count is modified
+        inits = [x.ops[0][1] for x in fn.ins if x.op == 'store' and res.loc(x.ops[1]) == la and x.ops[0][0] == 'int']
+        other = [x for x in fn.ins if x.op == 'store' and res.loc(x.ops[1]) == la and x.ops[0][0] != 'int']
+        # every non-constant store of the counter is counter + 1
+        ok = True
+        for x in other:
+            dd = fn.def_of(x.ops[0])
+            if not (dd is not None and dd.op == 'add' and ('int', 1) in dd.ops): ok = False
+        if not ok or not inits: continue
+        arrs = set()
+        for x in fn.ins:
+            if x.op == 'getelementptr' and len(x.ops) == 2 and x.ops[1][0] == 'reg' and x.ops[0][0] == 'reg':
+                i = fn.def_of(_sx(fn, x.ops[1])); bse = fn.def_of(x.ops[0])
+                if i is not None and i.op == 'load' and res.loc(i.ops[0]) == la and bse is not None and bse.op == 'load':
+                    lb = res.loc(bse.ops[0])
+                    if lb[0] == 'local' and lb[1] in params: arrs.add(lb[1][:-5])
+        if arrs: out.append((br, la[1], inits, d.pred, lc[1][:-5], sorted(arrs)))
+    return out
+
+def rule_param_array_loops(rep, prog, rule, fns, keyfile=lambda f: f.file):
+    """a loop `for (i = c0; i OP n; ++i) ... a[i]` over an array parameter a and its count parameter n visits exactly n
+    elements: flex's sets are 1-based with an inclusive count (i = 1; i <= n) or 0-based with an exclusive one
+    (i = 0; i < n); (1, <) skips the last element, (0, <=) reads one past the end."""
+    from common import where
+    n = 0
+    for f in fns:
+        for br, ctr, inits, pred, cnt, arrs in param_array_loops(prog, f):
+            n += 1
+            shapes = {(c0, pred[1:]) for c0 in inits}
+            good = shapes <= {(1, 'le'), (0, 'lt')}
+            key = '%s:%s:%s:%s[%s]:loop-bounds' % (rule, keyfile(f), f.name, '/'.join(arrs), cnt)
+            if good:
+                rep.ok(rule, '%s(): loop over %s[%s..%s] visits exactly %s elements' % (f.name, '/'.join(arrs), inits[0], cnt if pred[1:] == 'le' else cnt + '-1', cnt))
+            else:
+                c0 = inits[0]
+                rep.fail(rule, key, where(br), '%s() walks %s with `%s = %d; %s %s %s`: that %s (its other loops over (array, count) parameters run 1..n inclusive or 0..n-1)' % (
+                    f.name, '/'.join(arrs), ctr, c0, ctr, '<=' if pred[1:] == 'le' else '<', cnt,
+                    'never looks at the last element' if (c0, pred[1:]) == (1, 'lt') else 'reads one element past the end' if (c0, pred[1:]) == (0, 'le') else 'does not cover the %s elements' % cnt))
+    return n
